@@ -4,7 +4,6 @@
     to_f64   cfg [dbg|rel] a     -> hex of the f64 bit pattern
     from_f32 cfg bits            -> hex pattern of `f32::from_bits(bits) as <cfg type>` (bits: hex)
     from_f64 cfg bits            -> hex pattern of `f64::from_bits(bits) as <cfg type>`
-    from_f32_fixed / from_f64_fixed cfg bits -> the same with the model after the planned fix
   The build mode only switches the `debug_assert!`s of `from_*_parts` (never firing); default `dbg`.
   Model answer: Bnum.Model.Float on the value `U w a`; spec answer: Bnum.Spec.Float (exact integers).
 -/
@@ -26,17 +25,12 @@ private def toFloat (c : Cfg) (is64 dbg : Bool) (a : String) : Option (String ×
   let z : Int := if c.signed then toInt (M c.w c.n) pat else (pat : Int)
   some (showOut toHex mo, toHex (Spec.intToFloat (sfmt is64) z))
 
-private def fromFloat (c : Cfg) (is64 fixed : Bool) (b : String) : Option (String × String) := do
+private def fromFloat (c : Cfg) (is64 : Bool) (b : String) : Option (String × String) := do
   let bits ← parseHex b
   let F := mfmt is64
   if bits ≥ 2 ^ F.bits then none else
   let W := c.w * c.n
-  let mo :=
-    match c.signed, fixed with
-    | false, false => Flt.buintFromFloat F W bits
-    | false, true => Flt.castUintFromFloatFixed F W bits
-    | true, false => Flt.bintFromFloat F W bits
-    | true, true => Flt.bintFromFloatFixed F W bits
+  let mo := if c.signed then Flt.bintFromFloat F W bits else Flt.buintFromFloat F W bits
   some (toHex mo, toHex (Spec.floatToInt (sfmt is64) c.signed (M c.w c.n) bits))
 
 private def splitMode : List String → Bool × List String
@@ -49,10 +43,8 @@ def handle : Handler := fun c op args =>
   match op, args with
   | "to_f32", [a] => toFloat c false dbg a
   | "to_f64", [a] => toFloat c true dbg a
-  | "from_f32", [b] => fromFloat c false false b
-  | "from_f64", [b] => fromFloat c true false b
-  | "from_f32_fixed", [b] => fromFloat c false true b
-  | "from_f64_fixed", [b] => fromFloat c true true b
+  | "from_f32", [b] => fromFloat c false b
+  | "from_f64", [b] => fromFloat c true b
   | _, _ => none
 
 end Bnum.Drive.C14
